@@ -56,7 +56,10 @@ func VerifC11Retained() {
 	sub, ss := mkClient(m, "s", true)
 	f := symFilter("filter", L)
 	sq := symQOS("subqos")
-	rounds := 1 + vChoice("repeat", 2) // a repeated subscription replays again
+	rounds := 1
+	if vParam("REP", 1) == 1 {
+		rounds = 1 + vChoice("repeat", 2) // a repeated subscription replays again
+	}
 	for round := 0; round < rounds; round++ {
 		if round == 1 {
 			sq = symQOS("subqos2") // the repeated subscription may ask for another QoS
